@@ -9,7 +9,9 @@
 //!   D rc=<exit status of the first run (-n 1)>, then the C05 observations of that run (gsha/csha, pfile, ids, afile,
 //!     arows, cfile, crows) and its job log:
 //!   D jobs L<level>:<ids of job>|<ids of job>|...      jobs sorted by smallest id, ids ascending
-//!   D run <k> <R line> rc=<..> p=<sha256> a=<sha256> c=<sha256> j=<sha256 of the canonical job log>     every run
+//!   D run <k> <R line> rc=<..> p=<sha256 partition file> j=<sha256 of the canonical job log>     every run
+//!   F runcsv <k> a=<sha256 assignment csv> c=<sha256 cut csv>                                     every run (must be equal
+//!     across runs: judged; equal to the model's byte layout: drift only)
 #[path = "../chipper_common.rs"]
 mod chipper_common;
 use chipper_common::*;
@@ -19,7 +21,7 @@ fn add_runs(rng: &mut Rng, case: &mut Case, tier: Tier) {
     // the first run is the reference run of the property: one thread
     case.op("R n=1 pin=- jit=0");
     let reps = match tier {
-        Tier::Quick => 1,
+        Tier::Quick => 2,
         Tier::Thorough => 3,
     };
     for _ in 0..reps {
@@ -102,6 +104,7 @@ fn execute(case: &Case, obs: &mut Vec<String>) {
     let taskset_ok = have_taskset();
     let rtext: Vec<&String> = case.ops.iter().filter(|o| o.starts_with("R ")).collect();
     let mut run_lines = Vec::new();
+    let mut csv_lines = Vec::new();
     for (k, spec) in inp.runs.iter().enumerate() {
         let out = run_chipper(&dir, &inp, spec, true, taskset_ok);
         let jl = canon_joblog(&out.joblog);
@@ -119,27 +122,27 @@ fn execute(case: &Case, obs: &mut Vec<String>) {
                     None => "ERR".to_string(),
                 }
             ));
-            let (hdr, rows, nl) = canon_assignment(&out.a);
-            obs.push(format!("D afile sha={} hdr={} nl={}", sha256_hex(&out.a), hdr as u8, nl as u8));
+            let (ahdr, rows, anl) = canon_assignment(&out.a);
             obs.push(format!("D arows={}", rows.join(",")));
-            let (hdr, segs, nl) = canon_cut(&out.c);
-            obs.push(format!("D cfile sha={} hdr={} nl={}", sha256_hex(&out.c), hdr as u8, nl as u8));
+            let (chdr, segs, cnl) = canon_cut(&out.c);
             obs.push(format!("D crows={}", segs.join(",")));
+            csv_lines.push(format!("F afile sha={} hdr={} nl={}", sha256_hex(&out.a), ahdr as u8, anl as u8));
+            csv_lines.push(format!("F cfile sha={} hdr={} nl={}", sha256_hex(&out.c), chdr as u8, cnl as u8));
             for l in &jl {
                 obs.push(format!("D jobs {l}"));
             }
         }
         run_lines.push(format!(
-            "D run {k} {} rc={} p={} a={} c={} j={}",
+            "D run {k} {} rc={} p={} j={}",
             &rtext[k][2..],
             out.rc,
             sha256_hex(&out.p),
-            sha256_hex(&out.a),
-            sha256_hex(&out.c),
             sha256_hex(jl.join("\n").as_bytes())
         ));
+        csv_lines.push(format!("F runcsv {k} a={} c={}", sha256_hex(&out.a), sha256_hex(&out.c)));
     }
     obs.extend(run_lines);
+    obs.extend(csv_lines);
 }
 
 fn main() {
